@@ -12,6 +12,7 @@ import (
 	"fmt"
 	"net/http"
 	"net/http/httptest"
+	"strings"
 
 	"github.com/dadrus/heimdall/internal/handler/middleware/http/errorhandler"
 	"github.com/dadrus/heimdall/internal/handler/middleware/http/recovery"
@@ -84,8 +85,12 @@ func runReq(w *vf.Writer, nrand int) {
 	cases = append(cases, reqCase{Kind: "extract"}, reqCase{Kind: "extract", Strats: []string{""}},
 		reqCase{Kind: "extract", Strats: []string{"", "tok"}}, reqCase{Kind: "extract-via-recovery"})
 
-	for _, k := range []string{"string", "int", "error", "runtime", "authn", "authz", "comm", "timeout", "arg", "norule", "config", "nil", "abort"} {
-		cases = append(cases, reqCase{Kind: "recover", Panic: k})
+	for rep := 0; rep < 3; rep++ { // the method rotates with the case index: every kind meets several methods
+		for _, k := range []string{"string", "int", "error", "runtime", "authn", "authz", "comm", "timeout", "arg", "norule", "config", "nil", "abort"} {
+			cases = append(cases, reqCase{Kind: "recover", Panic: k})
+		}
+
+		cases = append(cases, reqCase{Kind: "recover", Status: 200})
 	}
 
 	for _, s := range []int{200, 204, 302, 401, 500} {
@@ -190,7 +195,10 @@ func runReq(w *vf.Writer, nrand int) {
 			}
 
 			rec := httptest.NewRecorder()
-			site, msg := Catch(func() { mw(h).ServeHTTP(rec, httptest.NewRequest(http.MethodGet, "http://heimdall.test/x", nil)) })
+			method := []string{http.MethodGet, http.MethodPost, http.MethodPut, http.MethodHead, http.MethodDelete, http.MethodPatch}[i%6]
+			site, msg := Catch(func() {
+				mw(h).ServeHTTP(rec, httptest.NewRequest(method, "http://heimdall.test/x?a=b", strings.NewReader("body")))
+			})
 			status := rec.Code
 
 			if site != "" { // the panic escaped the middleware
@@ -201,7 +209,7 @@ func runReq(w *vf.Writer, nrand int) {
 			}
 
 			coq = vf.CoqApp("QRecover", hCoq, vf.CoqZ(int64(status)))
-			tags = []string{"kind=recover", "panic=" + c.Panic}
+			tags = []string{"kind=recover", "panic=" + c.Panic, "method=" + method}
 		}
 
 		w.Put(vf.Obs{I: i, Stream: "request", In: c, Out: out, Coq: "(MQ " + coq + ")",
